@@ -2,7 +2,7 @@
     the command/response pairing of [events_to_objs].  ([events_to_obj]/[obj_to_events] themselves are not
     modelled: C11 is decided on the implementation, with the by-product object tied to Model/Decoder.v.) *)
 From Coq Require Import ZArith List String Bool.
-From TV Require Import Layout.Types Model.Monad Model.Decoder Model.Pump.
+From TV Require Import Layout.Types Model.Monad Model.Decoder Model.Message Model.Pump.
 Import ListNotations.
 Open Scope string_scope.
 Open Scope list_scope.
@@ -40,3 +40,175 @@ Fixpoint roles (ms : list (list event)) (pending : option (option Z)) : list rol
       end
   end.
 
+
+(** ---- [obj_to_events] (common/object.py): an object back into the events of its decode.
+    The Python function walks [dataclasses.fields(obj)] of the object's own class and needs, per field, its declared
+    type (for the placeholder event of an absent field and for the parent event of a list field).  The model is
+    directed by the layout descriptor of the class the object was decoded as (for a parameter area whose object has the
+    synthesized encrypted class, the first field's descriptor is replaced by TPM2B_ENCRYPTED_PARAM, as
+    [TPMS_PARAMS.encrypted()] does); attributes are looked up by name, an attribute that is not recorded is [None]. *)
+Section ObjEvents.
+  Variable T : tables.
+
+  Definition ev_node (pa : path) (t : tyid) : event := mkEvent pa t None.
+
+  (** [for i, elem in enumerate(obj): yield from obj_to_events(elem, parent / PathNode(name, i))] *)
+  Fixpoint oe_elems (f : value -> path -> list event) (pa : path) (l : list value) (i : Z) : list event :=
+    match l with
+    | [] => []
+    | x :: r => f x (pindex pa i) ++ oe_elems f pa r (i + 1)
+    end.
+
+  (** a list-typed field: the list parent, then the elements *)
+  Definition oe_list (lid : tyid) (f : value -> path -> list event) (pa : path) (v : value) : list event :=
+    ev_node pa lid :: match v with VList_ l => oe_elems f pa l 0 | _ => f v pa end.
+
+  Definition oe_leaf (v : value) (pa : path) : list event :=
+    match v with
+    | VInt_ tn z => [mkEvent pa (TyN tn) (Some z)]
+    | VList_ l => oe_elems (fun _ _ => []) pa l 0       (* a list outside a list field: no parent event *)
+    | VStruct_ _ _ => []
+    end.
+
+  (** the opaque first parameter: TPM2B_ENCRYPTED_PARAM, a size and a list of a primitive *)
+  Definition oe_enc_param (v : value) (pa : path) : list event :=
+    match t_enc_param T, v with
+    | TTpm2bList _ szf buf _ (TPrim ep), VStruct_ tid vals =>
+        ev_node pa tid ::
+        (match lookupS szf vals with
+         | Some (Some x) => oe_leaf x (pchild pa szf)
+         | _ => [ev_node (pchild pa szf) (TyN (pname (match t_enc_param T with TTpm2bList _ _ _ szp _ => szp | _ => ep end)))]
+         end) ++
+        (match lookupS buf vals with
+         | Some (Some x) => oe_list (TyList (pname ep)) oe_leaf (pchild pa buf) x
+         | _ => [ev_node (pchild pa buf) (TyList (pname ep))]
+         end)
+    | _, _ => []
+    end.
+
+  Fixpoint oe_ty (t : ty) (v : value) (pa : path) {struct t} : list event :=
+    match t with
+    | TPrim _ => oe_leaf v pa
+    | TStruct name isp fs =>
+        match v with
+        | VStruct_ tid vals =>
+            ev_node pa tid ::
+            match tid, fs with
+            | TyEnc _, FPlain n _ r =>
+                (match lookupS n vals with
+                 | Some (Some x) => oe_enc_param x (pchild pa n)
+                 | _ => [ev_node (pchild pa n) (ty_id (t_enc_param T))]
+                 end) ++ oe_fields r vals pa
+            | _, _ => oe_fields fs vals pa
+            end
+        | _ => oe_leaf v pa
+        end
+    | TTpm2bList name szf buf szp elem =>
+        match v with
+        | VStruct_ tid vals =>
+            ev_node pa tid ::
+            (match lookupS szf vals with
+             | Some (Some x) => oe_leaf x (pchild pa szf)
+             | _ => [ev_node (pchild pa szf) (TyN (pname szp))]
+             end) ++
+            (match lookupS buf vals with
+             | Some (Some x) => oe_list (list_id elem) (oe_ty elem) (pchild pa buf) x
+             | _ => [ev_node (pchild pa buf) (list_id elem)]
+             end)
+        | _ => oe_leaf v pa
+        end
+    | TTpm2bStruct name szf buf szp inner =>
+        match v with
+        | VStruct_ tid vals =>
+            ev_node pa tid ::
+            (match lookupS szf vals with
+             | Some (Some x) => oe_leaf x (pchild pa szf)
+             | _ => [ev_node (pchild pa szf) (TyN (pname szp))]
+             end) ++
+            (match lookupS buf vals with
+             | Some (Some x) => oe_ty inner x (pchild pa buf)
+             | _ => [ev_node (pchild pa buf) (ty_id inner)]          (* the absent payload: an "empty field" *)
+             end)
+        | _ => oe_leaf v pa
+        end
+    | TUnion name ar =>
+        match v with
+        | VStruct_ tid vals => ev_node pa tid :: oe_arms ar vals pa
+        | _ => oe_leaf v pa
+        end
+    end
+  with oe_fields (fs : fields) (vals : list (string * option value)) (pa : path) {struct fs} : list event :=
+    match fs with
+    | FNil => []
+    | FPlain n t r =>
+        (match lookupS n vals with
+         | Some (Some x) => oe_ty t x (pchild pa n)
+         | _ => [ev_node (pchild pa n) (ty_id t)]
+         end) ++ oe_fields r vals pa
+    | FList n elem r =>
+        (match lookupS n vals with
+         | Some (Some x) => oe_list (list_id elem) (oe_ty elem) (pchild pa n) x
+         | _ => [ev_node (pchild pa n) (list_id elem)]
+         end) ++ oe_fields r vals pa
+    | FUnion n _ u r =>
+        (match lookupS n vals with
+         | Some (Some x) => oe_ty u x (pchild pa n)
+         | _ => [ev_node (pchild pa n) (ty_id u)]
+         end) ++ oe_fields r vals pa
+    end
+  with oe_arms (ar : arms) (vals : list (string * option value)) (pa : path) {struct ar} : list event :=
+    (* a union class: members that are None are skipped completely *)
+    match ar with
+    | ANil => []
+    | ACons n _ p r =>
+        (match lookupS n vals with
+         | Some (Some x) =>
+             match p with
+             | PNone => oe_leaf x (pchild pa n)
+             | PTy t => oe_ty t x (pchild pa n)
+             | PList elem _ => oe_list (list_id elem) (oe_ty elem) (pchild pa n) x
+             end
+         | _ => []
+         end) ++ oe_arms r vals pa
+    end.
+
+  (** a field of Command / Response that may be invisible: skipped when None *)
+  Definition oe_opt (vals : list (string * option value)) (n : string) (f : value -> list event) : list event :=
+    match lookupS n vals with Some (Some x) => f x | _ => [] end.
+  Definition oe_req (vals : list (string * option value)) (n : string) (pa : path) (p : prim) : list event :=
+    match lookupS n vals with Some (Some x) => oe_leaf x (pchild pa n) | _ => [ev_node (pchild pa n) (TyN (pname p))] end.
+
+  Definition oe_command (v : value) (pa : path) : list event :=
+    match v with
+    | VStruct_ tid vals =>
+        let cc := match lookupS "commandCode" vals with Some x => as_int x | None => None end in
+        ev_node pa tid ::
+        oe_req vals "tag" pa (p_cmd_tag T) ++ oe_req vals "commandSize" pa (p_size32 T) ++ oe_req vals "commandCode" pa (p_cc T) ++
+        oe_opt vals "handles" (fun x => match cc with Some c => match lookupZ c (cmd_handles T) with Some t => oe_ty t x (pchild pa "handles") | None => [] end | None => [] end) ++
+        oe_opt vals "authSize" (fun x => oe_leaf x (pchild pa "authSize")) ++
+        oe_opt vals "authorizationArea" (oe_list (list_id (t_auth_cmd T)) (oe_ty (t_auth_cmd T)) (pchild pa "authorizationArea")) ++
+        oe_opt vals "parameters" (fun x => match cc with Some c => match lookupZ c (cmd_params T) with Some t => oe_ty t x (pchild pa "parameters") | None => [] end | None => [] end)
+    | _ => []
+    end.
+
+  (** [Response._type_maps] are keyed by the command code the response object was built with *)
+  Definition oe_response (cc : option Z) (v : value) (pa : path) : list event :=
+    match v with
+    | VStruct_ tid vals =>
+        ev_node pa tid ::
+        oe_req vals "tag" pa (p_rsp_tag T) ++ oe_req vals "responseSize" pa (p_size32 T) ++ oe_req vals "responseCode" pa (p_rc T) ++
+        oe_opt vals "handles" (fun x => match cc with Some c => match lookupZ c (rsp_handles T) with Some t => oe_ty t x (pchild pa "handles") | None => [] end | None => [] end) ++
+        oe_opt vals "parameterSize" (fun x => oe_leaf x (pchild pa "parameterSize")) ++
+        oe_opt vals "parameters" (fun x => match cc with Some c => match lookupZ c (rsp_params T) with Some t => oe_ty t x (pchild pa "parameters") | None => [] end | None => [] end) ++
+        oe_opt vals "authorizationArea" (oe_list (list_id (t_auth_rsp T)) (oe_ty (t_auth_rsp T)) (pchild pa "authorizationArea"))
+    | _ => []
+    end.
+
+  Definition obj_to_events (r : root) (v : value) : list event :=
+    match r with
+    | RType t => oe_ty t v root_path
+    | RCommand => oe_command v root_path
+    | RResponse cc _ => oe_response cc v root_path
+    | RStream => []
+    end.
+End ObjEvents.
